@@ -31,7 +31,11 @@ def gen_case(rng, tier, index):
                              formats=("fb", "fb", "npz", "npz", "fb", "npz",
                                       "tfrec"),
                              kinds=("root", "root", "sub", "multi"),
-                             meta_modes=("some", "runs", "runs"))
+                             meta_modes=("some", "runs", "runs"),
+                             # rejected writes (the caller catches the error
+                             # and carries on) between the labelled ones
+                             bad_rate=rng.choice([0.0, 0.0, 0.2]),
+                             bad_kinds=("shape", "rank", "missing"))
     return C.base_case(rng, hist)
 
 
